@@ -6,6 +6,8 @@ use std::collections::BTreeMap;
 
 pub struct Gen {
     pub rng: Rng,
+    /// size multiplier: 1 in the quick tier; the thorough tier draws larger programs for half of its runs
+    pub scale: u64,
     pub next_act: ActId,
     pub next_eff: EffId,
     pub acts: BTreeMap<ActId, ActScript>,
@@ -13,9 +15,13 @@ pub struct Gen {
 
 pub const CAPS: [usize; 5] = [1, 2, 3, 5, 16];
 
+/// set once per process from the tier (1 = quick, 2 = thorough)
+pub static SCALE: std::sync::atomic::AtomicU32 = std::sync::atomic::AtomicU32::new(1);
+
 impl Gen {
     pub fn new(seed: u64) -> Gen {
-        Gen { rng: Rng::new(seed), next_act: 1, next_eff: 1, acts: BTreeMap::new() }
+        let big = SCALE.load(std::sync::atomic::Ordering::Relaxed) > 1 && seed % 2 == 0;
+        Gen { rng: Rng::new(seed), scale: if big { 2 } else { 1 }, next_act: 1, next_eff: 1, acts: BTreeMap::new() }
     }
 
     pub fn knobs(&mut self, faulty: bool) -> Knobs {
@@ -27,7 +33,7 @@ impl Gen {
         Knobs {
             cpus: self.rng.pick(&[1, 2, 3, 4, 16]),
             sched,
-            step_limit: 60_000,
+            step_limit: 60_000 * self.scale,
             spurious_wake_pm: if faulty && self.rng.chance(50) { 30 } else { 0 },
             weak_cas_pm: if faulty && self.rng.chance(50) { 100 } else { 0 },
             spawn_fail_pm: 0,
@@ -151,8 +157,8 @@ fn direct_sub(read: bool) -> SubCfg {
 pub fn core(seed: u64) -> Program {
     let mut g = Gen::new(seed);
     let knobs = g.knobs(false);
-    let nred = g.rng.range(1, 3) as u32;
-    let nmw = if g.rng.chance(40) { g.rng.range(1, 2) as u32 } else { 0 };
+    let nred = g.rng.range(1, 2 + g.scale) as u32;
+    let nmw = if g.rng.chance(40) { g.rng.range(1, 1 + g.scale) as u32 } else { 0 };
     let reds: Vec<u32> = (0..nred).collect();
     let mws: Vec<u32> = (100..100 + nmw).collect();
     let cap = g.rng.pick(&CAPS);
@@ -168,8 +174,8 @@ pub fn core(seed: u64) -> Program {
         main.push(Op::AddSub { store: 0, sub: k, reg: regs });
         regs += 1;
     }
-    let nprod = g.rng.range(1, 4) as usize;
-    let mut budget = 16usize;
+    let nprod = g.rng.range(1, 2 + 2 * g.scale) as usize;
+    let mut budget = 16usize * g.scale as usize;
     let mut threads: Vec<Vec<Op>> = vec![vec![]];
     let mut all_reds = reds.clone();
     let late_red = g.rng.chance(20);
@@ -177,7 +183,7 @@ pub fn core(seed: u64) -> Program {
         all_reds.push(50);
     }
     for _ in 0..nprod {
-        let n = g.rng.range(1, 6).min(budget as u64) as usize;
+        let n = g.rng.range(1, 6 * g.scale).min(budget as u64) as usize;
         budget -= n;
         let mut ops = vec![];
         for _ in 0..n {
